@@ -24,7 +24,9 @@ class Generated:
 
 
 def initial_state(ex: Exec, c: Contract, fs):
+    from .engine import NOW0
     st = State()
+    st.now = NOW0
     fdef = fs.fdef
     argnames = [a.arg for a in fdef.args.posonlyargs + fdef.args.args + fdef.args.kwonlyargs]
     for n in argnames:
